@@ -40,6 +40,10 @@ type SpecAnalyser struct {
 	ReferencedDefinitions map[string]bool
 
 	schemasCompared map[string]struct{}
+
+	// media types of the two specs, in effect for operations without a list of their own
+	consumes1, consumes2 []string
+	produces1, produces2 []string
 }
 
 // NewSpecAnalyser returns an empty SpecDiffs
@@ -57,6 +61,8 @@ func (sd *SpecAnalyser) Analyse(spec1, spec2 *spec.Swagger) error {
 	sd.Definitions2 = spec2.Definitions
 	sd.Info1 = spec1.Info
 	sd.Info2 = spec2.Info
+	sd.consumes1, sd.consumes2 = spec1.Consumes, spec2.Consumes
+	sd.produces1, sd.produces2 = spec1.Produces, spec2.Produces
 	sd.urlMethods1 = getURLMethodsFor(spec1)
 	sd.urlMethods2 = getURLMethodsFor(spec2)
 
@@ -177,8 +183,39 @@ func (sd *SpecAnalyser) analyseEndpointData() {
 
 			sd.compareDescripton(location, op1.Operation.Description, op2.Operation.Description)
 
+			// media types given for the operation override the ones of the spec: when either side
+			// has a list of its own, compare the lists in effect (spec-level lists alone are compared once, at spec level)
+			if op1.Operation.Consumes != nil || op2.Operation.Consumes != nil {
+				added, deleted, _ := fromStringArray(effectiveMedia(op1.Operation.Consumes, sd.consumes1)).DiffsTo(effectiveMedia(op2.Operation.Consumes, sd.consumes2))
+				for _, each := range added {
+					sd.Diffs = sd.Diffs.addDiff(SpecDifference{DifferenceLocation: location, Code: AddedConsumesFormat, Compatibility: NonBreaking, DiffInfo: each})
+				}
+				for _, each := range deleted {
+					sd.Diffs = sd.Diffs.addDiff(SpecDifference{DifferenceLocation: location, Code: DeletedConsumesFormat, Compatibility: Breaking, DiffInfo: each})
+				}
+			}
+			if op1.Operation.Produces != nil || op2.Operation.Produces != nil {
+				added, deleted, _ := fromStringArray(effectiveMedia(op1.Operation.Produces, sd.produces1)).DiffsTo(effectiveMedia(op2.Operation.Produces, sd.produces2))
+				for _, each := range added {
+					sd.Diffs = sd.Diffs.addDiff(SpecDifference{DifferenceLocation: location, Code: AddedProducesFormat, Compatibility: NonBreaking, DiffInfo: each})
+				}
+				for _, each := range deleted {
+					sd.Diffs = sd.Diffs.addDiff(SpecDifference{DifferenceLocation: location, Code: DeletedProducesFormat, Compatibility: Breaking, DiffInfo: each})
+				}
+			}
 		}
 	}
+}
+
+// effectiveMedia yields the media types in effect for an operation: its own list, or the one of the spec
+func effectiveMedia(own, fromSpec []string) []string {
+	if own != nil {
+		return own
+	}
+	if fromSpec == nil {
+		return []string{}
+	}
+	return fromSpec
 }
 
 func (sd *SpecAnalyser) analyseRequestParams() {
